@@ -142,6 +142,13 @@ def Doc.nodes (d : Doc) : List Node :=
 /-- frames of all bindings the document holds -/
 def Doc.allFrames (d : Doc) : List Frame := d.nodes.flatMap Node.allFrames
 
+/-- SPEC: placeholder put into the value slot of the addressed binding when comparing the rest -/
+def hole : Node := .atom []
+
+/-- SPEC: does the AttributeSet object `sid` occur anywhere but at the target? (it does not in
+    documents built by the parser: the target object is referenced once) -/
+def Doc.sidElsewhere (sid : Nat) (d : Doc) : Bool := ({ d with target := hole } : Doc).hasSet sid
+
 /-- SPEC: one CLI edit -/
 inductive Op where
   | set (p : Text) (v : ValueArg)
